@@ -210,6 +210,15 @@ def archetypes(tier, seed):
     s1 = {"left": bd("<"), "repeat": [[bd("<", "", [0, 1]), "CC", bd(">")]], "end": [], "right": bd(">"), "dist": dists[0]}
     s2 = {"left": bd("<"), "repeat": [[bd("<"), "OC", bd(">", "", 3)], [bd("<"), "SC", bd(">", "", 1)]], "end": [], "right": bd(">"), "dist": dists[1]}
     out.append({"elements": [["C"], s1, s2, ["F"]], "archetype": "adjacent-objects-listed-handover"})
+    # three stochastic objects in a row, the admissible entry descriptors of the later ones weighted differently
+    s1 = {"left": bd(">"), "repeat": [[bd("<"), "CC", bd(">")]], "end": [], "right": bd("<"), "dist": dists[0]}
+    s2 = {"left": bd(">"), "repeat": [[bd("<", "", 1), "OC", bd(">")], [bd("<", "", 3), "SC", bd(">")]], "end": [], "right": bd("<"), "dist": dists[1]}
+    s3 = {"left": bd(">"), "repeat": [[bd("<"), "NC", bd(">")], [bd("<"), "C(F)C", bd(">")]], "end": [], "right": bd("<"), "dist": dists[2]}
+    out.append({"elements": [["C"], s1, s2, s3, ["F"]], "archetype": "triblock-adjacent-objects"})
+    s1 = {"left": bd("$"), "repeat": [[bd("$", "", 2), "CC", bd("$")]], "end": [], "right": bd("$"), "dist": dists[0]}
+    s2 = {"left": bd("$"), "repeat": [[bd("$", "", 5), "OCC", bd("$", "", 1)]], "end": [], "right": bd("$"), "dist": dists[3]}
+    s3 = {"left": bd("$"), "repeat": [[bd("$"), "NC", bd("$", "", 0.5)]], "end": [], "right": bd("$"), "dist": dists[1]}
+    out.append({"elements": [["C"], s1, s2, s3, ["F"]], "archetype": "triblock-adjacent-objects"})
     if tier == "thorough":
         for d1, d2 in itertools.product(dists[:4], dists[2:]):
             out.append(block(rng, d1, d2, connector=rng.choice([None, "CC", "COC"])))
